@@ -141,7 +141,10 @@ TrMass ==
               ELSE "")
   /\ UNCHANGED <<vars, ntraces, presented>> /\ NoDrift
 
-TraceNext == TrNew \/ TrHello \/ TrAuth \/ TrResp \/ TrEnd \/ TrMass
+\* remarks of the driver (e.g. an accepted recording carries no request)
+TrNote == IsEvent("Note") /\ UNCHANGED <<vars, viols, drift, dkind, ntraces, presented, mass>>
+
+TraceNext == TrNote \/ TrNew \/ TrHello \/ TrAuth \/ TrResp \/ TrEnd \/ TrMass
 TraceSpec == TraceInit /\ [][TraceNext]_<<vars, tvars>>
 
 Report == (l = Len(Trace) + 1) =>
